@@ -106,7 +106,7 @@ pub fn run_calls(calls: &[Vec<u64>]) -> RunOut {
     // epilogue: close what is open (ids 0..next by trial, errors ignored), finalize
     if !finalized {
         let r = catch(|| {
-            for id in 0..8u64 {
+            for id in 0..64u64 {
                 let _ = w.end_file(id);
             }
             w.finalize()
@@ -277,7 +277,7 @@ fn run_calls_indexed(calls: &[Vec<u64>], idx: &[usize]) -> RunOut {
         }
     }
     if !finalized {
-        for id in 0..8u64 {
+        for id in 0..64u64 {
             let _ = w.end_file(id);
         }
         if w.finalize().is_err() {
